@@ -1,14 +1,26 @@
 # vlib/run.py — run case lines through an executable (implementation harness or extracted model), sharded.
-import os, subprocess, tempfile
+import os, resource, subprocess, tempfile
 from . import build
 
 NSH = 16
 
 
-def _run_sharded(cmd, lines, env=None):
+def _big_stack():
+    # the extracted model recurses over lists (non-tail-recursive app/firstn/map): long buffers need a deep stack
+    try:
+        resource.setrlimit(resource.RLIMIT_STACK, (resource.RLIM_INFINITY, resource.RLIM_INFINITY))
+    except (ValueError, OSError):
+        try:
+            soft, hard = resource.getrlimit(resource.RLIMIT_STACK)
+            resource.setrlimit(resource.RLIMIT_STACK, (hard, hard))
+        except (ValueError, OSError):
+            pass
+
+
+def _run_sharded(cmd, lines, env=None, timeout=None):
     if not lines:
         return []
-    n = min(NSH, max(1, len(lines) // 50))
+    n = min(NSH, len(lines), max(1, len(lines) // 50, sum(len(x) for x in lines) // 1000000))
     shards = [lines[i::n] for i in range(n)]
     d = tempfile.mkdtemp(prefix="run", dir=os.path.join(build.BUILD, "tmp"))
     procs = []
@@ -20,10 +32,20 @@ def _run_sharded(cmd, lines, env=None):
             f.write("\n")
         fi = open(inp)
         fo = open(outp, "w")
-        procs.append((subprocess.Popen(cmd, stdin=fi, stdout=fo, stderr=subprocess.PIPE, env=env), fi, fo, outp))
+        procs.append((subprocess.Popen(cmd, stdin=fi, stdout=fo, stderr=subprocess.PIPE, env=env, preexec_fn=_big_stack), fi, fo, outp))
     outs = []
+    import time as _t
+    deadline = _t.time() + timeout if timeout else None
     for p, fi, fo, outp in procs:
-        _, err = p.communicate()
+        try:
+            _, err = p.communicate(timeout=max(1, deadline - _t.time()) if deadline else None)
+        except subprocess.TimeoutExpired:
+            for q, _fi, _fo, _o in procs:
+                q.kill()
+            for q, _fi, _fo, _o in procs:
+                q.communicate()
+            subprocess.run(["rm", "-rf", d])
+            raise build.BuildError("runner %s exceeded %d s" % (cmd, timeout), "")
         fi.close()
         fo.close()
         if p.returncode != 0:
@@ -43,9 +65,17 @@ def run_impl(exe, lines, env=None):
     return _run_sharded([exe], lines, env)
 
 
-def run_model(drv, chk, lines):
+def run_model(drv, chk, lines, timeout=None):
     os.makedirs(os.path.join(build.BUILD, "tmp"), exist_ok=True)
-    return _run_sharded([drv, "1" if chk else "0"], lines)
+    return _run_sharded([drv, "1" if chk else "0"], lines, timeout=timeout)
+
+
+def run_model_1(drv, chk, line, timeout=60):
+    """one case, for a replay file: never let a huge case stall the report"""
+    try:
+        return run_model(drv, chk, [line], timeout=timeout)[0]
+    except build.BuildError as e:
+        return "(model trace not computed: %s)" % e.what
 
 
 def ints(line):
